@@ -857,8 +857,8 @@ class NonlinearSolver(Solver):
         if np.isinf(norm) or np.isnan(norm):
             self._inf_nan_failure()
 
-        # solver stalled.
-        elif stalled:
+        # solver stalled without meeting desired tolerances.
+        elif stalled and norm > atol and norm / norm0 > rtol:
             msg = (f"Solver '{self.SOLVER}' on system '{system.pathname}' stalled after "
                    f"{self._iter_count} iterations.")
             self.report_failure(msg)
